@@ -421,8 +421,9 @@ Record InvH (hs : list hcall) (time : Z) (g : ghost) (hb : bool) : Prop := mkInv
   i_mono : StronglySorted (fun a b => incl (snd a) (snd b)) (gW g);
   i_rt : gown g <> None -> forall k, In k hs -> kobs k = true -> c_res k <= ginv g -> In k (base g hb) }.
 
-Definition Inv (c : config HM) (g : ghost) : Prop :=
-  InvT (hot (sh c)) (mtx (sh c)) g (thr c) (now c) /\ InvS (sh c) g (thr c) /\ InvH (hist c) (now c) g (hot (sh c)).
+Definition Inv3 (h : hsh) (T : list (thread HM)) (time : Z) (hs : list hcall) (g : ghost) : Prop :=
+  InvT (hot h) (mtx h) g T time /\ InvS h g T /\ InvH hs time g (hot h).
+Definition Inv (c : config HM) (g : ghost) : Prop := Inv3 (sh c) (thr c) (now c) (hist c) g.
 
 (* ---- counting lemmas ---- *)
 Lemma cnteq_app j E1 E2 : cnteq j (E1 ++ E2) = cnteq j E1 + cnteq j E2.
@@ -603,21 +604,158 @@ Lemma Inv_init progs : Inv (init_config HM (hinit bnds) progs) g0.
 Proof.
   destruct (init_fresh HM hstart_inl (hinit bnds) progs) as [HF Hh].
   destruct (fresh_T0 0 _ HF) as (HA & HB & HS).
-  unfold Inv. rewrite Hh. cbn [sh now init_config hinit hot mtx]. repeat split.
-  - intros i t Hi. apply fresh_tinv. eapply Forall_forall; [exact HF|]. eapply nth_error_In; eauto.
-  - change (thr (init_config HM (hinit bnds) progs)) with (thr (init_config HM (hinit bnds) progs)).
-    cbn [tickets]. rewrite !HA. reflexivity.
-  - intros j Hj. cbn [hget hot negb gD g0 gph gD0 gD1 set0 set1 cset0 s_bk pmb]. rewrite HB, nthZ_repeat0. reflexivity.
-  - intros j Hj. cbn [hget hot negb gD g0 gph gD0 gD1 set0 set1 cset0 s_bk pzb]. rewrite HB, nthZ_repeat0. reflexivity.
-  - cbn [hget hot negb gD g0 gph gD0 gD1 set0 set1 cset0 s_sum pms vals map app]. rewrite HS. constructor.
-  - cbn [hget hot negb gD g0 gph gD0 gD1 set0 set1 cset0 s_sum pzs vals map app]. rewrite HS. constructor.
-  - destruct b; reflexivity.
-  - destruct b; cbn [hget set0 set1 cset0 s_bk]; apply repeat_length.
-  - intros _. apply HA.
-  - intros count H. discriminate H.
-  - intros k [].
+  unfold Inv, Inv3. rewrite Hh. set (T := thr (init_config HM (hinit bnds) progs)) in *.
+  change (sh (init_config HM (hinit bnds) progs)) with (hinit bnds).
+  change (now (init_config HM (hinit bnds) progs)) with 0.
+  split; [|split].
   - constructor.
-  - constructor.
-  - constructor.
-  - intros H. exfalso. apply H. reflexivity.
+    + intros i t Hi. apply fresh_tinv. eapply Forall_forall; [exact HF|]. eapply nth_error_In; eauto.
+    + cbn. auto.
+  - constructor; cbn [hinit hget hot negb gD g0 gph gD0 gD1 set0 set1 cset0 s_bk s_sum s_cnt s_zero tickets h_bnds
+                     pmb pzb pms pzs pmc pzc vals map app zlen length];
+      try (intros; rewrite ?HA, ?HB, ?HS, ?nthZ_repeat0; first [reflexivity|discriminate|constructor]).
+    all: destruct b; cbn [hinit hget set0 set1 cset0 s_bk s_zero]; rewrite ?repeat_length; reflexivity.
+  - constructor; cbn [g0 gW gD0 gD1 gown app filter map].
+    + intros k [].
+    + constructor.
+    + reflexivity.
+    + constructor.
+    + constructor.
+    + intros H. exfalso. apply H. reflexivity.
 Qed.
+
+(* ====================================================================== *)
+(* 5. preservation                                                         *)
+(* ====================================================================== *)
+Definition set_ph (g : ghost) (ph : phase) : ghost := mkG (gD0 g) (gD1 g) (gW g) (gown g) (ginv g) ph.
+
+Lemma holds_contrib o pc : holds pc = true ->
+  (forall b, cA b (Some (o, pc)) = 0) /\ (forall b j, cB b j (Some (o, pc)) = 0) /\ (forall b, cS b (Some (o, pc)) = []).
+Proof. destruct pc; cbn [holds]; intros H; try discriminate H; repeat split. Qed.
+
+(* the lock holder executes a step that keeps the lock, the hot bit and the ghost lists *)
+Lemma step_hold h h' T nw hs g g' i t o pc pc' inv :
+  Inv3 h T nw hs g -> nth_error T i = Some t -> t_cur t = Some (o, pc, inv) ->
+  holds pc = true -> holds pc' = true -> hot h' = hot h -> mtx h' = mtx h ->
+  gD0 g' = gD0 g -> gD1 g' = gD1 g -> gW g' = gW g -> gown g' = gown g -> ginv g' = ginv g ->
+  flipped (gph g') = flipped (gph g) ->
+  pcinv (hot h) g' i o pc' inv -> InvS h' g' T ->
+  Inv3 h' (set_nth T i (mkThread HM (t_todo t) (Some (o, pc', inv)) (t_idx t))) (nw + 1) hs g'.
+Proof.
+  intros (HT & HS & HH) Ht Hc Hh Hh' Ehot Emtx E0 E1 EW Eo Ei Ef Hpc HS'.
+  pose proof (i_thr _ _ _ _ _ HT i t Ht) as Hi. unfold tinv in Hi. rewrite Hc in Hi. destruct Hi as [_ Hinv].
+  unfold Inv3. rewrite Ehot, Emtx. split; [|split].
+  - eapply InvT_hold; eauto.
+  - destruct (holds_contrib o pc Hh) as (A1 & B1 & S1). destruct (holds_contrib o pc' Hh') as (A2 & B2 & S2).
+    assert (Hp : tpc t = Some (o, pc)) by (unfold tpc; rewrite Hc; reflexivity).
+    destruct (T_same T i t (mkThread HM (t_todo t) (Some (o, pc', inv)) (t_idx t)) Ht) as (HA & HB & HS2);
+      try (intros; rewrite Hp; unfold tpc; cbn [t_cur]; rewrite ?A1, ?A2, ?B1, ?B2, ?S1, ?S2; reflexivity).
+    eapply InvS_T; [..|exact HS']; intros; auto.
+  - apply InvH_time with nw; [lia|]. eapply InvH_ghost; eauto.
+Qed.
+
+(* a thread that does not hold the lock executes a step changing nothing but its own pc (same contributions) *)
+Lemma step_quiet h T nw hs g i t o pc pc' inv :
+  Inv3 h T nw hs g -> nth_error T i = Some t -> t_cur t = Some (o, pc, inv) ->
+  holds pc = false ->
+  (forall b, cA b (Some (o, pc')) = cA b (Some (o, pc))) -> (forall b j, cB b j (Some (o, pc')) = cB b j (Some (o, pc))) ->
+  (forall b, cS b (Some (o, pc')) = cS b (Some (o, pc))) ->
+  pcinv (hot h) g i o pc' inv ->
+  Inv3 h (set_nth T i (mkThread HM (t_todo t) (Some (o, pc', inv)) (t_idx t))) (nw + 1) hs g.
+Proof.
+  intros (HT & HS & HH) Ht Hc Hh EA EB ES Hpc.
+  pose proof (i_thr _ _ _ _ _ HT i t Ht) as Hi. unfold tinv in Hi. rewrite Hc in Hi. destruct Hi as [_ Hinv].
+  split; [|split].
+  - eapply InvT_obs; eauto.
+    + intros o1 pc1 inv1 H1. rewrite Hc in H1. inversion H1; subst. assumption.
+    + unfold tinv. cbn [t_cur]. split; [assumption|lia].
+  - assert (Hp : tpc t = Some (o, pc)) by (unfold tpc; rewrite Hc; reflexivity).
+    destruct (T_same T i t (mkThread HM (t_todo t) (Some (o, pc', inv)) (t_idx t)) Ht) as (HA & HB & HS2);
+      try (intros; rewrite Hp; unfold tpc; cbn [t_cur]; auto).
+    eapply InvS_T; [..|exact HS]; intros; auto.
+  - apply InvH_time with nw; [lia|assumption].
+Qed.
+
+Lemma cooled_facts h g T : InvS h g T -> cooled (gph g) = true ->
+  TA (negb (hot h)) T = 0 /\ (forall j, TB (negb (hot h)) j T = 0) /\ TS (negb (hot h)) T = [].
+Proof.
+  intros HS Hc. pose proof (i_cooled _ _ _ HS Hc) as HA. destruct (TA_zero _ _ HA) as [HB HS']. auto.
+Qed.
+
+Ltac psplit := repeat match goal with |- _ /\ _ => split end.
+Ltac hold_same g := exists g; eapply step_hold; eauto; try reflexivity.
+
+Lemma Inv_step c g tid c' : Inv c g -> sched_step HM c tid = Some c' -> exists g', Inv c' g'.
+Proof.
+  intros HI Hstep.
+  destruct (sched_step_cases HM hstart_inl _ _ _ Hstep) as (t & o & pc & inv & h' & nxt & Ht & Hc & Hs & Hsh & Hnow & Hrest).
+  set (i := Z.to_nat tid) in *. clearbody i. clear Hstep.
+  destruct c as [h T nw hs tr]; destruct c' as [h'' T' nw' hs' tr']; unfold Inv in *; cbn [sh thr now Conc.hist] in *.
+  subst h'' nw'. change (step HM h pc) with (hstep h pc) in Hs.
+  pose proof HI as (HT & HS & HH).
+  pose proof (i_thr _ _ _ _ _ HT i t Ht) as Hi. unfold tinv in Hi. rewrite Hc in Hi. destruct Hi as [Hpc Hinv].
+  destruct pc; cbn [hstep] in Hs.
+  - (* oTicket *)
+    admit.
+  - (* oBucket *)
+    admit.
+  - (* oSumLoad *)
+    inversion Hs; subst; clear Hs. destruct Hrest as [-> ->]. exists g. eapply step_quiet; eauto.
+  - (* oSumCas *)
+    admit.
+  - (* oCount *)
+    admit.
+  - (* wLock *)
+    admit.
+  - (* wFlip *)
+    admit.
+  - (* wCool *)
+    admit.
+  - (* wSpin *)
+    inversion Hs; subst; clear Hs. destruct Hrest as [-> ->]. hold_same g.
+  - (* wReadSum *)
+    admit.
+  - (* wReadBk *)
+    admit.
+  - (* mLoadCnt *)
+    inversion Hs; subst; clear Hs. destruct Hrest as [-> ->]. hold_same g.
+    cbn [pcinv] in *. destruct Hpc as (Hold & Hph & -> & Hout). psplit; try tauto.
+    rewrite (i_cntc _ _ _ HS), Hph. reflexivity.
+  - (* mAddCnt *)
+    inversion Hs; subst; clear Hs. destruct Hrest as [-> ->].
+    cbn [pcinv] in Hpc. destruct Hpc as ((-> & Hg & Hgi) & Hph & -> & Hout & ->).
+    exists (set_ph g (PhM true false false false 0 0)).
+    eapply step_hold; eauto; try reflexivity.
+    + destruct h as [bn hb tk s0 s1 mx]; destruct hb; reflexivity.
+    + destruct h as [bn hb tk s0 s1 mx]; destruct hb; reflexivity.
+    + cbn [pcinv set_ph gown ginv gph]. tauto.
+    + destruct HS as [B1 TK CH CC BH BC SH SC ZR FR CD CL].
+      rewrite Hph in *. destruct h as [bn hb tk s0 s1 mx]. cbn [hot] in *.
+      destruct hb; cbn [negb hget hput hot tickets set0 set1 mtx h_bnds s_sum s_cnt s_bk s_zero gD pmc pzc pms pzs pmb pzb PhM0] in *.
+      * constructor; cbn [negb hget hput hot tickets set0 set1 mtx h_bnds s_sum s_cnt s_bk s_zero gD set_ph gD0 gD1 gph pmc pzc pms pzs pmb pzb PhM0].
+        Show.
+  - (* mStoreCnt *)
+    admit.
+  - (* mLoadSum *)
+    admit.
+  - (* mSumLoad *)
+    admit.
+  - (* mSumCas *)
+    admit.
+  - (* mStoreSum *)
+    admit.
+  - (* mLoadBk *)
+    admit.
+  - (* mAddBk *)
+    admit.
+  - (* mStoreBk *)
+    admit.
+  - (* mLoadZero *)
+    admit.
+  - (* mAddZero *)
+    admit.
+  - (* mStoreZero *)
+    admit.
+  - (* wUnlock *)
+    admit.
+Admitted.
